@@ -497,7 +497,10 @@ def gen(ctx):
     deep = ctx.thorough
     full = True
     n = 400000 if deep else 30000
-    methods = ['m', '', 'a.b', 'é', 'rpc.x', '\U0001F600', 'x' * 100]
+    # incl. names that are not in a Unicode normal form (decomposed accent, ligature, fullwidth, superscript, Angstrom
+    # sign), names with surrounding blanks and names differing in case only: a method name is an opaque string
+    methods = ['m', '', 'a.b', 'é', 'rpc.x', '\U0001F600', 'x' * 100, 'cafe\u0301', '\ufb01le.read', '\uff46\uff55\uff4c\uff4c',
+               'x\u00b2', '\u212b', ' padded ', 'CamelCase', 'camelcase', '_private', '__dunder__', 'a..b', 'tab\tname']
     # requests
     for _ in range(n):
         yield 'request', {'method': rng.choice(methods), 'params': encode_params(values.params(rng)), 'id': rng.choice(IDS)}
@@ -540,6 +543,14 @@ def gen(ctx):
             else:
                 ritems.append([i, None, rng.choice(specs)])
         yield 'batch_response', {'items': ritems, 'base': rng.choice(list(BASES))}
+    # batch responses holding elements with a null id (what a server answers for an element it could not identify):
+    # alone, next to identified elements, as error and as result
+    null_err, null_res = [None, None, [-32600, 'Invalid Request', ABSENT]], [None, 'r', None]
+    for ritems in ([null_err], [null_res], [null_err, null_err], [null_err, [1, 'a', None]], [[1, 'a', None], null_err],
+                   [null_res, null_err, ['x', None, [5, 'm', None]]], [[0, None, [-32000, 'Server error', ABSENT]]],
+                   [['', None, [1, '', ABSENT]]]):
+        for base in BASES:
+            yield 'batch_response', {'items': ritems, 'base': base}
     # serialise / append / extend histories
     ops_alpha = ['ser', ['append', 1], ['append', 2], ['append', None], ['extend', [3, 4]], ['extend', [5]], ['extend', []],
                  ['extend', [None, 6]]]
